@@ -147,6 +147,20 @@ def handle (line : String) : String :=
           else if nanTaint then s!"undef | {d.num}/{d.den} {e}"
           else s!"ok {showOptVals vals} | {d.num}/{d.den} {e}"
       | _, _, _, _ => "bad-input"
+  | "densealg" :: scale :: f :: sigs =>
+      -- the mirror of the dense-time offline list algorithms: the sample list `evaluate()` returns, sample by sample
+      match parseRat scale, parseFormula f, (sigs.filter (· ≠ "")).mapM parseDSig with
+      | some sc, some φ, some w =>
+          let cfg : Dense.DCfg := { scale := sc }
+          let nanTaint := (subs φ).any (fun ψ => match Dense.Alg.evalAlg cfg w ψ with
+            | .ok l => l.any (fun p => p.2.isNaN)
+            | .error _ => false)
+          if nanTaint then "undef" else
+          match Dense.Alg.evalAlg cfg w φ with
+          | .ok l => "ok " ++ " ".intercalate (l.map (fun p =>
+              (match p.1 with | .fin q => s!"{q.num}/{q.den}" | .inf => "inf") ++ "@" ++ bitsOfFloat p.2))
+          | .error e => "err " ++ errStr e
+      | _, _, _ => "bad-input"
   | "parse" :: unit :: consts :: hex :: _ =>
       -- front end: text is hex-encoded UTF-8; consts: `K=2.0,J=3`
       let bytes : Option (List UInt8) :=
